@@ -22,10 +22,11 @@ Definition gen_lit_chain : chain lact :=
    ([CDict], GAlways, AMap);
    ([CFloat], GNan, ANanCast TDouble);
    ([CFloat], GInf, AInfCast);
-   ([CDatetime], GAlways, ATsCast)].
+   ([CDatetime], GAlways, ATsCast);
+   ([CStr], GNul, AStrNul)].
 
 Definition gen_litfn_chain : chain fact :=
-  [([CStr], GAlways, FStrLit);
+  [([CStr], GAlways, FStrNested);
    ([CFloat], GInf, FInfStr)].
 
 Definition gen_tovalue_chain : chain vact :=
